@@ -101,6 +101,8 @@ def check (st : St) (op obs : String) : St × String :=
     (match (fieldOf (words obs) "hwm") >>= String.toNat?, svcPosOf st.lastSvc with
      | some h, some s => if h > s.1 then (st, s!"FAIL high-water mark {h} exceeds what the service holds ({s.1})") else (st, "ok")
      | _, _ => (st, "ok"))
+  | ["xdb-check"] =>
+    (st, if obs == "ok" || obs == "bad-op" then "ok" else s!"FAIL after a sync the service does not hold a second database of the node under its name at the node's position: {obs.take 160}")
   | ["reopen-loop"] => ({ st with lastState := st.lastState }, if obs == "ok" then "ok" else s!"FAIL restart failed: {obs.take 40}")
   | ["backup-sync"] | ["backup-wait"] =>
     let sv := svcPosOf st.lastSvc
